@@ -190,6 +190,17 @@ fn explore(ctx: &mut Ctx) {
     ctx.exhaustive_part(&format!(
         "all strings of 0..={max_chars} chars over {{a,é,漢,😀}} + 162 strings of boundary scalars, x index set {{0..=len+2, usize::MAX neighbourhood, isize::MAX neighbourhood}} x all pairs"
     ));
+    // lead-byte sweep: the first and last scalar of every UTF-8 lead byte, in 8 short contexts, every index / pair
+    for s in gen::lead_byte_strings() {
+        let idx: Vec<usize> = (0..=s.len() + 1).chain([usize::MAX]).collect();
+        for &a in &idx {
+            eval(ctx, Case { s: s.clone(), a, b: None });
+            for &b in &idx {
+                eval(ctx, Case { s: s.clone(), a, b: Some(b) });
+            }
+        }
+    }
+    ctx.exhaustive_part("lead-byte sweep: first / last scalar of each of the 51 UTF-8 lead bytes (+ U+0000, U+007F) x 8 short contexts x every index 0..=len+1, usize::MAX x all pairs");
     // long strings (beyond the exhaustive bound): 17..=70 bytes, every index and every pair
     for (k, n) in [(1usize, 9usize), (2, 14), (3, 23), (5, 31)] {
         let pool = ['a', 'é', '漢', '😀', '\u{7ff}', '\u{800}', '\u{ffff}', 'z'];
